@@ -222,6 +222,23 @@ class Gen:
             return self.fn_num(1)
         return ['binL', r.choice(['lt', 'ge']), self.num_val(), self.fn_num(1)]
 
+    def arg_stream(self, d, length, ints, floats):
+        """The step / grow argument of Pseries / Pgeom: a plain value, or a pattern that is shorter than,
+        as long as, or longer than `length` (the series ends with whichever ends first), or endless."""
+        r = self.r
+        x = r.random()
+        val = lambda: ['i', r.choice(ints)] if r.random() < 0.75 else ['f', r.choice(floats)]
+        if x < 0.35:
+            return self.c(val())
+        if x < 0.8:
+            n = 8 if length == 'inf' else int(length)
+            k = max(1, r.choice([n - 2, n - 1, n, n + 1, 1, 2, 3]))
+            items = [self.c(val()) for _ in range(k)]
+            if r.random() < 0.25:      # a finite sub-pattern among the items
+                items[r.randrange(len(items))] = ['len', self.c(val()), r.randint(0, 2)]
+            return ['seq', items, r.choice([1, 1, 1, 2, 'inf']), r.choice([0, 0, 1])]
+        return self.pat('int', d - 1)
+
     def listpat(self, kind, d):
         """A list pattern of the given kind of items."""
         r = self.r
@@ -306,12 +323,12 @@ class Gen:
         if x < 0.3:
             return self.listpat('num', d)
         if x < 0.36:
-            return ['series', self.num_val(), self.pat('num', d - 1) if r.random() < 0.4 else self.c(self.num_val()),
-                    r.choice([0, 1, 3, 5, 8, 'inf', 'inf'])]
-        if x < 0.4:
-            return ['geom', ['i', r.choice([1, 2, 3, -1])] if r.random() < 0.7 else ['f', r.choice(['1/2', '3/4', '5/1'])],
-                    self.c(['i', r.choice([2, -2, 3, 1])]) if r.random() < 0.7 else self.c(['f', r.choice(['1/2', '3/2', '-1/2'])]),
-                    r.choice([0, 1, 3, 5, 8, 'inf'])]
+            length = r.choice([0, 1, 3, 5, 8, 'inf', 'inf'])
+            return ['series', self.num_val(), self.arg_stream(d, length, [1, 2, -1, 3, 0], ['1/2', '-3/4', '5/4']), length]
+        if x < 0.42:
+            length = r.choice([0, 1, 3, 5, 8, 'inf', 'inf'])
+            start = ['i', r.choice([1, 2, 3, -1])] if r.random() < 0.7 else ['f', r.choice(['1/2', '3/4', '5/1'])]
+            return ['geom', start, self.arg_stream(d, length, [2, -2, 3, 1, -1], ['1/2', '3/2', '-1/2']), length]
         if x < 0.46:
             return ['stutter', self.pat('num', d - 1), self.pat('cnt', d - 1)]
         if x < 0.5:
